@@ -42,6 +42,7 @@ func checkC14(c c14Case, o *Obs) error {
 	labelVarCase(gb, o)
 	o.LabelIf(c.GFF.SpecPhases, "gff:spec-phases")
 	o.LabelIf(c.GFF.SortRows, "gff:coordinate-sorted-rows")
+	o.LabelIf(c.GFF.ParentAttr, "gff:parent-attributes")
 	o.LabelIf(c.AppendSNP, "append-snps")
 	run := varRunOpts{Start: -1, End: -1, AppendSNP: c.AppendSNP}
 	outGB, err := runVariants(gb, run)
@@ -97,7 +98,7 @@ func genC14(t *rapid.T) c14Case {
 	vc := varCase{Format: "gb"}
 	vc.Form = rapid.SampledFrom([]string{"msa", "msa", "sam"}).Draw(t, "form")
 	ao := annoGenOpts{minRef: 20, maxRef: ifThorough(300, 90), maxFeats: ifThorough(6, 4), iupacOutside: true}
-	vc.GFF = gffOpts{SequenceRegion: rapid.Bool().Draw(t, "seqRegion"), WithFasta: true, GeneRows: rapid.Bool().Draw(t, "geneRows"), SortRows: rapid.Bool().Draw(t, "sortRows")}
+	vc.GFF = gffOpts{SequenceRegion: rapid.Bool().Draw(t, "seqRegion"), WithFasta: true, GeneRows: rapid.Bool().Draw(t, "geneRows"), SortRows: rapid.Bool().Draw(t, "sortRows"), ParentAttr: rapid.IntRange(0, 2).Draw(t, "parentAttr") == 0}
 	switch rapid.IntRange(0, 2).Draw(t, "gffDialect") {
 	case 0:
 		ao.codonAligned = true // dialect (i): every segment starts on a codon boundary, phase 0 on continuation rows
